@@ -177,10 +177,15 @@ func c10LoadedDigest(l c10Loaded) string {
 // c10RunDoc: declaration lines, both renderings through the real loader, correspondence and oracles.
 // Returns the verdict of the YAML load.
 func c10RunDoc(c *Case, d c10Doc, policy string) string {
+	y, j := c10Bytes(d.toMap())
+	return c10RunDocBytes(c, d, policy, y, j)
+}
+
+// c10RunDocBytes: as c10RunDoc for a document given by its bytes; `d` is what the bytes declare.
+func c10RunDocBytes(c *Case, d c10Doc, policy string, y, j []byte) string {
 	for _, l := range d.declLines(policy) {
 		c.Op(l, "ok")
 	}
-	y, j := c10Bytes(d.toMap())
 	ly, lj := c10Load(y), c10Load(j)
 	c.Op("convert", ly.out)
 	c.Oracle("nopanic out=" + ly.out)
@@ -976,6 +981,15 @@ func runC10(r *Run) {
 		m = c10FuzzValues(rng, m, "", PickOne(rng, []int{4, 10, 25}))
 		y, j := c10Bytes(m.(map[string]any))
 		ly, lj := c10Load(y), c10Load(j)
+		// a document the loader accepts must be loaded faithfully, whatever its values: read it back
+		// independently and judge it item by item like a generated one
+		if rd, ok := c10ReadDoc(m.(map[string]any)); ok && ly.out == "ok" && c10TokenSafe(rd) {
+			c10RunDocBytes(c, rd, policy, y, j)
+			c.Note("valuefuzz:ok-judged-item-by-item")
+			c.Desc = "schema-valid document with odd scalar values, accepted: judged item by item"
+			c.Nontrivial = true
+			return
+		}
 		c.Oracle("nopanic out=" + ly.out)
 		c.Oracle("nopanic out=" + lj.out)
 		c.Oracle(fmt.Sprintf("same yaml=%s json=%s", c10LoadedDigest(ly), c10LoadedDigest(lj)))
